@@ -10,6 +10,8 @@ set_option linter.unusedSimpArgs false
 structure GridInv (W : Nat → Option Nat) (g : Grid) (un : Bool) : Prop where
   rows_pos : 1 ≤ g.size.rows
   cols_pos : 1 ≤ g.size.cols
+  rows_u16 : g.size.rows ≤ 65535
+  cols_u16 : g.size.cols ≤ 65535
   rows_len : (un = true ∧ g.rows = []) ∨ g.rows.length = g.size.rows
   row_ok : ∀ r ∈ g.rows, r.cells.length = g.size.cols ∧ rowOk W r = true
   pos_row : g.pos.row < g.size.rows
@@ -27,10 +29,10 @@ theorem gridOk_iff (W : Nat → Option Nat) (g : Grid) (un : Bool) :
   simp only [gridOk, posOk, Bool.and_eq_true, decide_eq_true_eq, Bool.or_eq_true, List.all_eq_true,
     beq_iff_eq, List.isEmpty_iff, ge_iff_le]
   constructor
-  · rintro ⟨⟨⟨⟨⟨⟨⟨⟨⟨⟨h1, h2⟩, h3⟩, h4⟩, h5, h6⟩, h7, h8⟩, h9⟩, h10⟩, h11⟩, h12⟩, h13⟩
-    exact ⟨h1, h2, h3, h4, h5, h6, h7, h8, h9, h10, h11, h12, h13⟩
-  · rintro ⟨h1, h2, h3, h4, h5, h6, h7, h8, h9, h10, h11, h12, h13⟩
-    exact ⟨⟨⟨⟨⟨⟨⟨⟨⟨⟨h1, h2⟩, h3⟩, h4⟩, h5, h6⟩, h7, h8⟩, h9⟩, h10⟩, h11⟩, h12⟩, h13⟩
+  · rintro ⟨⟨⟨⟨⟨⟨⟨⟨⟨⟨⟨⟨h1, h2⟩, u1⟩, u2⟩, h3⟩, h4⟩, h5, h6⟩, h7, h8⟩, h9⟩, h10⟩, h11⟩, h12⟩, h13⟩
+    exact ⟨h1, h2, u1, u2, h3, h4, h5, h6, h7, h8, h9, h10, h11, h12, h13⟩
+  · rintro ⟨h1, h2, u1, u2, h3, h4, h5, h6, h7, h8, h9, h10, h11, h12, h13⟩
+    exact ⟨⟨⟨⟨⟨⟨⟨⟨⟨⟨⟨⟨h1, h2⟩, u1⟩, u2⟩, h3⟩, h4⟩, h5, h6⟩, h7, h8⟩, h9⟩, h10⟩, h11⟩, h12⟩, h13⟩
 
 structure ScreenInv (W : Nat → Option Nat) (s : Screen) : Prop where
   grid : GridInv W s.grid false
@@ -63,7 +65,7 @@ theorem ScreenInv.cur {W : Nat → Option Nat} {s : Screen} (h : ScreenInv W s) 
   cases ha : s.altScreen
   · simp only [Bool.false_eq_true, ↓reduceIte]
     have := h.grid
-    refine ⟨⟨this.1, this.2, ?_, this.4, this.5, this.6, this.7, this.8, this.9, this.10, this.11, this.12, this.13⟩, ?_⟩
+    refine ⟨{ this with rows_len := ?_ }, ?_⟩
     · rcases this.rows_len with ⟨hf, _⟩ | hl
       · simp at hf
       · exact Or.inr hl
@@ -77,7 +79,6 @@ theorem ScreenInv.cur {W : Nat → Option Nat} {s : Screen} (h : ScreenInv W s) 
     · exact hl
 
 theorem GridInv.mono {W : Nat → Option Nat} {g : Grid} (h : GridInv W g false) : GridInv W g true :=
-  ⟨h.1, h.2, by rcases h.rows_len with ⟨hf, _⟩ | hl; simp at hf; exact Or.inr hl,
-   h.4, h.5, h.6, h.7, h.8, h.9, h.10, h.11, h.12, h.13⟩
+  { h with rows_len := by rcases h.rows_len with ⟨hf, _⟩ | hl; simp at hf; exact Or.inr hl }
 
 end Vt
